@@ -109,13 +109,13 @@ def afterNested (ft : Bool) (st : LSt) : NR → POut (List LItem)
   | .bad => .bad
   | .unsupported => .unsupported
   | .endOk mq => .ok (LItem.query mq :: st.items).reverse
-  | .saved mq t rest => parseL false ft { st with items := .query mq :: st.items, cur := none } (t :: rest)
+  | .saved mq t rest => parseL true ft { st with items := .query mq :: st.items, cur := none } (t :: rest)
   | .pushed mq t rest =>
-    if ft && !rest.isEmpty then parseL false ft { st with items := .query mq :: st.items, cur := none } (t :: rest)
-    else parseL false ft { st with items := .query mq :: st.items, cur := none } rest
+    if ft && !rest.isEmpty then parseL true ft { st with items := .query mq :: st.items, cur := none } (t :: rest)
+    else parseL true ft { st with items := .query mq :: st.items, cur := none } rest
 
 theorem parseL_cur (ft : Bool) : ∀ (ts : List Tok) (st : LSt) (q : QSt),
-    parseL false ft { st with cur := some q } ts = afterNested ft st (nrun true q ts) := by
+    parseL true ft { st with cur := some q } ts = afterNested ft st (nrun true q ts) := by
   intro ts
   induction ts with
   | nil =>
@@ -129,7 +129,7 @@ theorem parseL_cur (ft : Bool) : ∀ (ts : List Tok) (st : LSt) (q : QSt),
     · simp only [parseL, nrun, hs]; exact ih st q
     · simp only [parseL, nrun, hi, afterNested]
     · simp only [parseL, nrun, he, afterNested]
-    · rw [parseL_cons_cur_sig false ft _ q t ts rfl hsig, nrun_sig true q t ts hsig]
+    · rw [parseL_cons_cur_sig true ft _ q t ts rfl hsig, nrun_sig true q t ts hsig]
       cases hst : stepQ true q t with
       | cont q' => exact ih st q'
       | unsupported => rfl
@@ -138,15 +138,8 @@ theorem parseL_cur (ft : Bool) : ∀ (ts : List Tok) (st : LSt) (q : QSt),
         | false => simp [afterNested]
         | true =>
           simp only [if_true, afterNested, LSt.closeQuery]
-          rw [parseL_cons_none_sig false ft _ t ts rfl hsig]
-      | missing =>
-        cases hq : q.stopIf with
-        | false => simp [afterNested]
-        | true =>
-          simp only [Bool.not_false, Bool.and_true, if_true, afterNested, LSt.closeQuery]
-          split
-          · rw [parseL_cons_none_sig false ft _ t ts rfl hsig]
-          · rfl
+          rw [parseL_cons_none_sig true ft _ t ts rfl hsig]
+      | missing => simp [afterNested]
 
 /-- a handed-back token is a significant token of the input, and what follows it is the rest -/
 theorem nrun_hb (b : Bool) : ∀ (ts : List Tok) (q : QSt) (mq : MQ) (t' : Tok) (rest : List Tok),
@@ -174,11 +167,7 @@ theorem nrun_hb (b : Bool) : ∀ (ts : List Tok) (q : QSt) (mq : MQ) (t' : Tok) 
         cases hq : q.stopIf <;> simp [hq] at h
         obtain ⟨_, rfl, rfl⟩ := h
         exact ⟨hsig, [], rfl⟩
-      | missing =>
-        rw [hst] at h
-        cases hq : q.stopIf <;> simp [hq] at h
-        obtain ⟨_, rfl, rfl⟩ := h
-        exact ⟨hsig, [], rfl⟩
+      | missing => rw [hst] at h; simp at h
 
 /-- the list automaton on a token that starts a query -/
 theorem listStep_start (st : LSt) (t : Tok) (hp : st.phase = .start ∨ st.phase = .afterComma)
@@ -258,7 +247,7 @@ theorem summL_wf_false (l : Loop LItem) (src : Src) (h1 : l.wellformed = false) 
   simp [summL, parseTail, h1, h2, endLoop_false]
 
 theorem outer_nil (ft : Bool) (p : List Tok) (c : Lc) (st : LSt) (l : Loop LItem) (h : RL c st l) :
-    summL (parseTail (.ok (l, ⟨[], ft, p, []⟩))) = parseL false ft st [] := by
+    summL (parseTail (.ok (l, ⟨[], ft, p, []⟩))) = parseL true ft st [] := by
   have hseq := h.seq
   cases c with
   | start =>
@@ -296,7 +285,7 @@ theorem outer_nil (ft : Bool) (p : List Tok) (c : Lc) (st : LSt) (l : Loop LItem
 def OuterOK (ft : Bool) (n : Nat) : Prop :=
   ∀ (ts : List Tok), ts.length ≤ n → ∀ (c : Lc) (st : LSt) (l : Loop LItem) (fuel : Nat) (p : List Tok),
     RL c st l → ts.length + 2 ≤ fuel → (∀ t ∈ ts, Dom t) → (ft = true → p = []) →
-    summL (parseTail (mainLoop (actL (gq true)) fuel none ⟨ts, ft, p, []⟩ l)) = parseL false ft st ts
+    summL (parseTail (mainLoop (actL (gq true)) fuel none ⟨ts, ft, p, []⟩ l)) = parseL true ft st ts
 
 theorem comment_test_false (t : Tok) (h : t.typ.special = false) : Matcher.test .comment t = false := by
   cases ht : t.typ <;> simp [ht, TT.special] at h <;> simp [Matcher.test, ht]
@@ -306,11 +295,11 @@ theorem outer_comma (ft : Bool) (n : Nat) (ih : OuterOK ft n) (c : Lc) (hc : c =
     (st : LSt) (l : Loop LItem) (f : Nat) (p : List Tok) (t : Tok) (ts : List Tok) (hn : ts.length ≤ n)
     (h : RL c st l) (hf : ts.length + 2 ≤ f) (hd : ∀ x ∈ t :: ts, Dom x) (hp : ft = true → p = [])
     (hsig : t.typ.special = false) :
-    summL (parseTail (mainLoop (actL (gq true)) (f + 1) (some t) ⟨ts, ft, p, []⟩ l)) = parseL false ft st (t :: ts) := by
+    summL (parseTail (mainLoop (actL (gq true)) (f + 1) (some t) ⟨ts, ft, p, []⟩ l)) = parseL true ft st (t :: ts) := by
   have hfol := descend_lc t l.st c h.ok (comment_test_false t hsig)
   unfold FollowsL at hfol
   rw [← h.prods] at hfol
-  rw [parseL_cons_none_sig false ft st t ts h.cur hsig]
+  rw [parseL_cons_none_sig true ft st t ts h.cur hsig]
   have hph : st.phase = .afterQuery := by rw [h.phase]; rcases hc with rfl | rfl <;> rfl
   have hdt := hd t (List.mem_cons_self ..)
   have hd' : ∀ x ∈ ts, Dom x := fun x hx => hd x (List.mem_cons_of_mem _ hx)
@@ -355,11 +344,11 @@ theorem outer_query (ft : Bool) (n : Nat) (ih : OuterOK ft n) (c : Lc) (hc : c =
     (st : LSt) (l : Loop LItem) (f : Nat) (p : List Tok) (t : Tok) (ts : List Tok) (hn : ts.length ≤ n)
     (h : RL c st l) (hf : ts.length + 2 ≤ f) (hd : ∀ x ∈ t :: ts, Dom x)
     (hsig : t.typ.special = false) :
-    summL (parseTail (mainLoop (actL (gq true)) (f + 1) (some t) ⟨ts, ft, p, []⟩ l)) = parseL false ft st (t :: ts) := by
+    summL (parseTail (mainLoop (actL (gq true)) (f + 1) (some t) ⟨ts, ft, p, []⟩ l)) = parseL true ft st (t :: ts) := by
   have hfol := descend_lc t l.st c h.ok (comment_test_false t hsig)
   unfold FollowsL at hfol
   rw [← h.prods] at hfol
-  rw [parseL_cons_none_sig false ft st t ts h.cur hsig]
+  rw [parseL_cons_none_sig true ft st t ts h.cur hsig]
   have hph : st.phase = .start ∨ st.phase = .afterComma := by
     rw [h.phase]; rcases hc with rfl | rfl
     · exact .inl rfl
@@ -481,7 +470,7 @@ theorem outer_sim (ft : Bool) : ∀ n, OuterOK ft n := by
 list, the generic engine run on the captured `MediaList` tree with the nested parser on the captured `_partof` query
 tree — including both hand-back channels — gives exactly the result of `parseL` (the code as it is) -/
 theorem engineL_eq_parseL (ft : Bool) (toks : List Tok) (hd : ∀ t ∈ toks, Dom t) :
-    engineL Gen.C17Grammar.mediaList Gen.C17Grammar.mediaQueryPartof ft toks = parseL false ft {} toks := by
+    engineL Gen.C17Grammar.mediaList Gen.C17Grammar.mediaQueryPartof ft toks = parseL true ft {} toks := by
   have h := outer_sim ft toks.length toks (Nat.le_refl _) .start {} _ (toks.length + 4) [] rl_init (by omega) hd
     (fun _ => rfl)
   rw [← h]
